@@ -969,7 +969,7 @@ func init() {
 		Assumptions: []string{
 			"'bit-for-bit unchanged' is decided on the complete private state of seqbag/align dumped by an overlay-added file of package align (VerifDump) plus the row comments",
 			"an operation that panics or reports an error is not a counterexample to this property by itself (other properties own those clauses); its input is still compared",
-			"the ownership clause ('mutating the copy never changes the original and vice versa') is applied to Clone, CloneSeqBag, SubAlign, SelectSites, RandSubAlign, Split and - being in the statement's list of copy-producing operations, which the quantifier follows by in-place mutations of the returned object - Transpose and BuildBootstrap (also on rows without any site); for all other producers of new objects only 'input unchanged' is checked and buffer sharing is merely counted",
+			"the ownership clause ('mutating the copy never changes the original and vice versa') is applied to Clone, CloneSeqBag, SubAlign, SelectSites, RandSubAlign, Split and - being in the statement's list of copy-producing operations, which the quantifier follows by in-place mutations of the returned object - Transpose, Consensus and BuildBootstrap (also on rows without any site); for all other producers of new objects only 'input unchanged' is checked and buffer sharing is merely counted",
 			"arguments are valid ones (sites inside the alignment, windows inside it, existing names): behaviour on invalid arguments belongs to C04/C14",
 			"rand.Intn(n) can return every value of [0,n); rand.Float64 answers for Rarefy are the representatives used by C10",
 		},
